@@ -380,23 +380,34 @@ func decodeMode(rng *rand.Rand, stt *stats, w *evWriter, span, random int) {
 
 func codecReplay(path string) {
 	var rf struct {
-		Case json.RawMessage `json:"case"`
+		Case    json.RawMessage   `json:"case"`
+		Prelude []json.RawMessage `json:"prelude"`
 	}
 	b, err := os.ReadFile(path)
 	must(err)
 	must(json.Unmarshal(b, &rf))
-	var head struct {
-		Mode string `json:"mode"`
+	one := func(raw json.RawMessage, print bool) {
+		var head struct {
+			Mode string `json:"mode"`
+		}
+		must(json.Unmarshal(raw, &head))
+		var ev any
+		switch head.Mode {
+		case "decode":
+			var c decCase
+			must(json.Unmarshal(raw, &c))
+			ev = runDecodeCase(c)
+		default:
+			ev = codecRunOther(head.Mode, raw)
+		}
+		if print {
+			os.Stdout.Write(jsonLine(ev))
+		}
 	}
-	must(json.Unmarshal(rf.Case, &head))
-	switch head.Mode {
-	case "decode":
-		var c decCase
-		must(json.Unmarshal(rf.Case, &c))
-		os.Stdout.Write(jsonLine(runDecodeCase(c)))
-	default:
-		codecReplayOther(head.Mode, rf.Case)
+	for _, p := range rf.Prelude { // the calls made just before in the same process
+		one(p, false)
 	}
+	one(rf.Case, true)
 }
 
 func base64Decode(s string) ([]byte, error) { return base64.StdEncoding.DecodeString(s) }
